@@ -141,6 +141,14 @@ C05Raw(sn, calls) ==
 
 (* C07 - rolling update, partition, OnDelete                                           *)
 UpdateDeletes(sn, calls) == {k \in Idx(calls) : IsPodDelete(calls[k]) /\ IsUpdateDelete(sn, calls, k)}
+\* one pod at a time, from the top: at most one update delete per reconcile, and only when every desired pod above the
+\* target is there, at the update revision, Running, Ready and not terminating (so none of them is still down for update)
+OneAtATime(sn, calls) ==
+  LET u == UpdObs(sn, calls) IN
+  /\ Cardinality(UpdateDeletes(sn, calls)) <= 1
+  /\ \A k \in UpdateDeletes(sn, calls) :
+       LET t == Target(sn, calls, k) IN
+       \A j \in D(sn) : j > t.ord => (PartAt(sn, j) # {} /\ \A p \in PartAt(sn, j) : HealthyP(p) /\ p.rev = u)
 C07Raw(sn, calls) ==
   LET u == UpdObs(sn, calls) cu == CurObs(sn, calls) IN
   /\ Cardinality(UpdateDeletes(sn, calls)) <= 1
@@ -168,7 +176,7 @@ C14Raw(sn, calls, res) ==
           = {i \in D(sn) : PartAt(sn, i) = {} \/ \A p \in PartAt(sn, i) : DeadP(p)}
     /\ {Name(calls[k]) : k \in {j \in Idx(calls) : IsPodDelete(calls[j]) /\ IsCondemnedDelete(sn, calls, j)}}
           = {p.name : p \in {q \in CondemnedPresent(sn) : ~q.term}}
-    /\ Cardinality(UpdateDeletes(sn, calls)) <= 1
+    /\ OneAtATime(sn, calls)                      \* "rolling updates still take down one pod at a time"
 
 (* C12 - every status write tells the truth (per-write clauses)                        *)
 StatusOfCall(c) == [obsGen |-> Ints(c)[1], replicas |-> Ints(c)[2], ready |-> Ints(c)[3],
